@@ -61,6 +61,7 @@ type VC struct {
 	nextCell  int
 	nAlloc    int
 	localObjs  map[*Term]*localObj // objects allocated by the function under verification that have not escaped
+	guardedMaps map[string]*PtrV // map values loaded from lock-guarded fields -> the field they came from
 	localOrder []*Term
 	escWhy     string
 	guardedFns map[string]bool
